@@ -245,6 +245,23 @@ func execLookups(o *out, f [][]int) []int {
 	return obs
 }
 
+// lookupCases: messages with repeated attribute types, looked up and iterated with a callback that fails
+// at the k-th visit (cmd 202); ForEach must leave the message as it was, whichever visit fails
+func lookupCases(o *out, r *rng, n int) {
+	for i := 0; i < n; i++ {
+		var body []byte
+		ts := []int{0x0006, 0x8022, 0x0020, 0x8020}
+		k := r.rangeIn(2, 7)
+		for j := 0; j < k; j++ {
+			l := r.intn(6)
+			body = append(body, r.tlv(ts[r.intn(len(ts))], r.bytes(l), l)...)
+		}
+		data := append(header(r.intn(65536), len(body), r.bytes(12)), body...)
+		o.run(202, []string{fHex(data), fNums(ts[r.intn(3)], r.intn(5))}, true)
+		o.count("foreach-with-failing-callback")
+	}
+}
+
 // ---------------------------------------------------------------- generators
 
 var tid0 = []byte{0xb7, 0xe7, 0xa7, 0x01, 0xbc, 0x34, 0xd6, 0x86, 0xfa, 0x87, 0xdf, 0xae}
